@@ -123,9 +123,10 @@ def witness(g, path, limit=14):
 # --------------------------------------------------------------------- ops
 
 class Op:
-    __slots__ = ('kind', 'path', 'ast', 'stmt', 'node')
+    __slots__ = ('kind', 'path', 'ast', 'stmt', 'node', 'inlined')
 
-    def __init__(self, kind, path, astnode, stmt, node):
+    def __init__(self, kind, path, astnode, stmt, node, inlined=False):
+        self.inlined = inlined
         self.kind = kind      # call | store | setitem | del | delitem | aug
         self.path = path      # canonical tuple or None
         self.ast = astnode
@@ -179,7 +180,8 @@ class Facts:
                 continue
             for c in calls_in_order(e):
                 out.append(Op('call', self.b.canon(c.func, fr)
-                              if dotted(c.func) else None, c, s, node))
+                              if dotted(c.func) else None, c, s, node,
+                              inlined=(id(c), fr.id) in self.b.inlined))
         if isinstance(s, ast.Assign):
             for t in s.targets:
                 for tt in _targets(t):
